@@ -59,10 +59,11 @@ type e2Out struct {
 }
 
 type e2OrderFinding struct {
-	Seq      []e2Op   `json:"seq"`
-	SeqText  []string `json:"seq_text"`
-	Outcomes []string `json:"outcomes"`
-	Choices  [][]int  `json:"choices"`
+	Seq      []e2Op            `json:"seq"`
+	SeqText  []string          `json:"seq_text"`
+	Outcomes []string          `json:"outcomes"`
+	Choices  [][]int           `json:"choices"`
+	Aliases  map[string]string `json:"aliases,omitempty"`
 }
 
 type e2OrderOut struct {
